@@ -117,7 +117,7 @@ func TestMakeSeeds(t *testing.T) {
 		txgen.AllegationVote(v[1].Key, "q1", v[1].Key.Addr, 1, s.fee, s.memo()))
 	s.block()
 	s.block()
-	writeSeed(t, dir, "kf-frozen-elected-before-window.json", "election", "C10/election/frozen-elected", "guilty verdict at a height <= blockVotesDiff", s.tr)
+	writeSeed(t, dir, "kf-frozen-elected-before-window.json", "election", "C10/election/frozen-elected-before-window", "guilty verdict at a height <= blockVotesDiff", s.tr)
 
 	// 5. stake, get elected, unstake everything in the next block: the record is deleted before the
 	// validator shows up in the commit votes, so no removal is ever issued and it keeps its voting power
@@ -137,4 +137,38 @@ func TestMakeSeeds(t *testing.T) {
 		s.block()
 	}
 	writeSeed(t, dir, "kf-ghost-member.json", "convergence", "C10/convergence/member-without-record", "a candidate stakes, is elected, and unstakes everything one block later", s.tr)
+
+	// 6. regression input (must pass): candidates around a top count of 3 with ties, purge, re-stake
+	// after the purge delay, a verdict after the missed-votes window, release, convergence tail
+	p = sim.DefaultParams()
+	p.Seed = "c10-regress"
+	p.Frankenstein = 0
+	p.MinSelfDeleg, p.TopCount, p.Maturity = 1000, 3, 2
+	p.ValPower = []int64{1010, 1005, 1005, 1003}
+	p.ExtraVals = 2
+	p.Evidence.BlockVotesDiff = 2
+	p.Evidence.MinVotesRequired = 1
+	p.Witnesses = nil
+	s = newSeed(p, "boundary-purge-restake-verdict")
+	v = s.g.U.Vals
+	s.block()
+	s.block(txgen.Stake(v[4], v[4].Stake.Addr, olt(1005), s.fee, s.memo())) // tie with the boundary
+	s.block()
+	s.block(txgen.Stake(v[3], v[3].Stake.Addr, olt(3), s.fee, s.memo()), // 1006: passes the tied ones (staking is refused for 2 blocks after the purge of block 2)
+		txgen.Unstake(v[1].Key.Addr, v[1].Stake.Addr, olt(6), s.fee, s.memo(), v[1].Stake, v[1].Key)) // 999: below the minimum
+	s.block()
+	s.block(txgen.Stake(v[5], v[5].Stake.Addr, olt(999), s.fee, s.memo())) // a candidate that never reaches the minimum
+	s.block(txgen.Stake(v[1], v[1].Stake.Addr, olt(8), s.fee, s.memo()))   // re-stake after the purge delay: 1007
+	s.block()
+	s.block(txgen.Allegation(v[0].Key, "q1", v[0].Key.Addr, v[3].Key.Addr, 2, "p", s.fee, s.memo()))
+	s.block(txgen.AllegationVote(v[0].Key, "q1", v[0].Key.Addr, 1, s.fee, s.memo()),
+		txgen.AllegationVote(v[1].Key, "q1", v[1].Key.Addr, 1, s.fee, s.memo()))
+	s.block(txgen.Stake(v[0], v[0].Stake.Addr, olt(2), s.fee, s.memo()))
+	s.block()
+	s.block()
+	s.block(txgen.Release(v[3].Key, v[3].Key.Addr, s.fee, s.memo()))
+	for i := 0; i < 8; i++ {
+		s.block()
+	}
+	writeSeed(t, dir, "seed-boundary-purge-restake-verdict.json", "seed", "C10/seed", "hand-built regression scenario", s.tr)
 }
